@@ -91,8 +91,11 @@ type SState struct {
 	Frozen   map[string]string                    `json:"frozen,omitempty"` // task/coll -> canonical positions once dropped
 	LogHits  []string                             `json:"log_hits,omitempty"`
 	Rewritten map[string]bool                     `json:"rewritten,omitempty"` // task records written again after their deletion
+	RewrittenPos map[string]bool                  `json:"rewritten_pos,omitempty"` // checkpoints written again after the deletion of their task
 	Ambiguous map[string]bool                     `json:"ambiguous,omitempty"` // tasks hit by a store write that was applied but reported as failed
 	InFlight int                                  `json:"in_flight"` // index of the operator request in flight at the crash, -1 none
+	MsgCalls int                                  `json:"msg_calls"` // running number of drop-message store calls
+	Overlap  map[string]bool                      `json:"overlap,omitempty"` // tasks whose record was being updated by a background transition (failure pause) while an operator request on the same task was in flight
 	SimSecs  float64                              `json:"sim_secs"`
 }
 
@@ -128,6 +131,7 @@ type RigS struct {
 	opBusy   bool
 	opDone   *SOpRec
 	opFaults int
+	opWrites int
 	mu       sync.Mutex
 
 	storeWrites int // counter of store writes released (to trigger checkpoint checks)
@@ -152,6 +156,27 @@ type RigS struct {
 func (r *RigS) gate(kind string) Gate {
 	return func(ctx context.Context, k, key string) Outcome {
 		if r.direct {
+			return Outcome{}
+		}
+		if kind == "store" && strings.Contains(key, "task_msg") {
+			// the drop-message store is called with ReplicateMeteImpl's lock held: parking here would leave other
+			// goroutines blocked on a mutex (not durably blocked). These calls complete at once; the script names the
+			// calls (by their running number) that fail.
+			r.mu.Lock()
+			n := r.st.MsgCalls
+			r.st.MsgCalls++
+			r.mu.Unlock()
+			isRead := strings.Contains(key, ":get:") || strings.Contains(key, "query:")
+			if !isRead && !r.s.Draining {
+				for _, f := range r.sc.MsgFaults {
+					if f == n {
+						r.s.Stat("fault:taskmsg_store_err")
+						r.s.Side("store(np) %s -> injected error", key)
+						return Outcome{Fault: "store_err_before"}
+					}
+				}
+			}
+			r.s.Side("store(np) %s", key)
 			return Outcome{}
 		}
 		o := r.s.Park(ctx, kind, key, nil)
@@ -294,6 +319,12 @@ func (r *RigS) loadState() {
 	}
 	if st.Rewritten == nil {
 		st.Rewritten = map[string]bool{}
+	}
+	if st.Overlap == nil {
+		st.Overlap = map[string]bool{}
+	}
+	if st.RewrittenPos == nil {
+		st.RewrittenPos = map[string]bool{}
 	}
 	r.deletedAt = map[string]int{}
 	if st.Tasks == nil {
@@ -502,6 +533,16 @@ func (r *RigS) startOp(idx int) {
 	r.takeBefore()
 	r.opBusy = true
 	r.opFaults = 0
+	r.opWrites = 0
+	if op.Task != "" {
+		for _, c := range r.s.Parked() {
+			if c.Kind == "store" && (strings.HasSuffix(c.Key, "task_info/"+op.Task) || strings.Contains(c.Key, "task_info/"+op.Task+"#") || strings.Contains(c.Key, "task_info/"+op.Task+",")) {
+				// somebody is in the middle of a read-modify-write of this task's record
+				r.st.Overlap[op.Task] = true
+				r.s.Probe("background_transition_overlaps_request")
+			}
+		}
+	}
 	r.st.InFlight = idx
 	body := r.body(op)
 	method := op.Method
@@ -544,6 +585,32 @@ func (r *RigS) noteStoreWrite(key string) {
 		id = key[i+len("task_info/"):]
 		if j := strings.IndexAny(id, ",# "); j >= 0 {
 			id = id[:j]
+		}
+	}
+	if i := strings.Index(key, "task_position/"); i >= 0 && (strings.Contains(key, ":put:") || strings.Contains(key, "exec:INSERT INTO task_position:")) {
+		pid := key[i+len("task_position/"):]
+		if j := strings.IndexAny(pid, "/,# "); j >= 0 {
+			pid = pid[:j]
+		}
+		if _, ok := r.deletedAt[pid]; ok {
+			creating := r.opBusy && r.st.InFlight >= 0 && r.sc.Ops[r.st.InFlight].Task == pid && (r.sc.Ops[r.st.InFlight].K == "create" || r.sc.Ops[r.st.InFlight].K == "raw")
+			if !creating {
+				r.st.RewrittenPos[pid] = true
+				r.s.Probe("checkpoint_rewritten_after_delete")
+			}
+		}
+	}
+	if id != "" && (strings.Contains(key, ":put:") || strings.Contains(key, "exec:INSERT INTO task_info:")) && r.opBusy && r.st.InFlight >= 0 && r.sc.Ops[r.st.InFlight].Task == id {
+		// the request's own writes: create 2 (record, state), pause / resume 1; anything beyond that is a background
+		// transition (a pause triggered by a failure) of the same task running concurrently with the request
+		r.opWrites++
+		limit := 1
+		if k := r.sc.Ops[r.st.InFlight].K; k == "create" || k == "raw" {
+			limit = 2
+		}
+		if r.opWrites > limit {
+			r.st.Overlap[id] = true
+			r.s.Probe("background_transition_overlaps_request")
 		}
 	}
 	switch {
